@@ -40,7 +40,7 @@ META = {
 THEOREMS = [
     "view_is_flattened", "lookup_priority", "fallback_then_default", "override_wins", "master_default",
     "reprioritise", "profiles_end_profileless", "list_tuple_dict_consistent", "bool_eight_spellings",
-    "replace_only_known", "text_roundtrip_partial", "fill_fits_unchanged", "text_roundtrip", "int_float_consistent", "replace_mixed_texts",
+    "replace_only_known", "wrap_partitions_words", "fill_fits_unchanged", "text_roundtrip", "int_float_consistent", "replace_mixed_texts",
     "c19_stale_refuted", "c19_fbsect_refuted", "c19_mkey_refuted", "c19_fmt_refuted", "c19_metanl_refuted",
     "c19_clear_refuted", "replace_uses_current_vars", "c19_lead_refuted",
 ]
